@@ -1,4 +1,25 @@
 from props.client_props import gen_c02
-PROP = {"id": "C02", "stages": [{"name": "client", "target": "h_client", "gen": gen_c02, "shard": 12}], "trivial_tags": ['short'],
+
+from props.e2egen import *
+from props.e2egen import line as eline
+
+def gen_e2e(ctx):
+    """lockstep over real sockets, with and without TLS"""
+    rng = ctx["rng"]
+    noop = "noop@" + R(b"200 ok")
+    for ver in (13, 12):
+        for tls in (1, 0):
+            for mode in "pa":
+                for rfc in (0, 1):
+                    c = cfg_str(mode=mode, rfc=rfc, ver=ver, tls=tls, prop="C02", resume=rng.below(2))
+                    ops = [connect(tls=bool(tls))]
+                    for _ in range(rng.range(3, 8)):
+                        r = rng.below(6)
+                        ops.append([noop, get(mode, rfc), put(mode, rfc), lst(mode, rfc), get(mode, rfc, main=550), "pwd@" + R(b"257 \"/\"")][r])
+                    ops.append("disc:1@" + R(b"221 bye"))
+                    yield eline(c, ops)
+
+PROP = {"id": "C02", "stages": [{"name": "client", "target": "h_client", "gen": gen_c02, "shard": 12},
+                   {"name": "e2e", "target": "h_e2e", "gen": gen_e2e, "shard": 4}], "trivial_tags": ['short'],
         "rule": 'random and directed histories of API calls (all calls, four data-connection methods, cancellation at several polls) against the scripted RFC-conformant server: in-memory control channel whose reply bytes are cut as scripted, real loopback data connections; the returned replies are compared with the replies the server generated during the call and the unread control bytes must be empty (or a lone LF). Non-trivial = a history with more than two calls; distinct = distinct scenario lines.',
         "assumptions": ["in-memory control transport (a socket_base subclass) stands in for the TCP control socket; data connections are real loopback TCP", "oracle values (read sizes, kernel-chosen ports, connect results) are taken from the implementation run"]}
